@@ -154,6 +154,52 @@ func c07Run(w *W) {
 	}
 	rec()
 	_ = last
+	// every derivation of the grammar generator (each compound form, nested once, here-documents before each
+	// compound form, the word menu) in one-line and multi-line layout as the FIRST command of a stream, followed
+	// by each of a few commands: whatever state a construct leaves behind in the lexer must not reach the next call
+	followers := [][]string{{"a\n"}, {"{ b; }\n", "c\n"}, {"cat <<E\nx\nE\n"}, {"\n", "if a; then b; fi\n"}, {"a"}}
+	seen := map[string]bool{}
+	derivations(w.thorough(), func(name string, texts []string) {
+		if name == "WN" || name == "D3" || name == "D2" && !w.thorough() {
+			return
+		}
+		key := strings.Join(texts, "\x00")
+		if seen[key] || !w.Mine() || w.TimeUp() {
+			seen[key] = true
+			return
+		}
+		seen[key] = true
+		ss := syms(append(append([]string{}, texts...), "\n")...)
+		m := gramParse(ss)
+		if !m.ok || m.dontcare != "" {
+			return
+		}
+		firsts := []string{render(ss).src}
+		if ml := render(multiLine(ss, m)).src; ml != firsts[0] {
+			firsts = append(firsts, ml)
+		}
+		for _, first := range firsts {
+			if a := c07ParseAlone(first); a.err != nil {
+				continue // C02's business
+			}
+			for _, fo := range followers {
+				parts := append([]string{first}, fo...)
+				for _, rk := range []string{"strings.Reader", "runescanner"} {
+					c := c07Case{Parts: parts, Reader: rk}
+					w.Announce(strings.Join(parts, ""))
+					w.Count("evaluations", 1)
+					w.Count("derivation_streams", 1)
+					w.Count("states", int64(len(parts)))
+					w.Count("transitions", int64(len(parts)))
+					w.Count("traces_validated_against_impl", 1)
+					w.Count("distinct_nontrivial", 1)
+					if d := c07Judge(c); d != "" {
+						w.Violation("", c, d)
+					}
+				}
+			}
+		}
+	})
 }
 
 func init() {
